@@ -265,6 +265,8 @@ def check(E: Engine, rep: Report, scopes: list[FunctionInfo], rule: str = "ARGS"
                 n_sites += 1
                 problems: list[str] = []
                 undet = False
+                if fx.len_guard > k + 1:
+                    problems.append(f"the path requires at least {fx.len_guard} positional arguments before reading argument {k}: a recorded call with exactly {k + 1} positional argument(s) -- which does hold argument {k} -- falls through to the other branch (default / keyword lookup)")
                 if fx.len_guard > k:
                     cand: Optional[set] = set()
                 else:
